@@ -53,6 +53,27 @@ def validate_suite(chk, pid):
                              {"row": r, "spec_expected": want[r["id"]]})
     chk.cov["traces_validated_against_impl"] += total - unsupported
     chk.cov["evaluations"] += total
+    # the life-time discipline on the same recording (push / pop / what a finished test leaves behind)
+    import re
+    from . import tlc
+    traces = glob.glob(os.path.join(cache, "stack_*.ndjson.trace"))
+    nev = 0
+    for tf in traces:
+        nev += sum(1 for _ in open(tf))
+        cfg = os.path.join(chk.workdir, "stacktrace.cfg")
+        tlc.write_cfg(cfg, spec="TSpec", constraints=["Progress"], postcondition="Accepted")
+        res = tlc.run("Trace_JtStack", cfg, chk.workdir, workers=1, env={"VERIF_ROWS": tf}, heap="4g")
+        chk.cov["states"] += res.distinct
+        chk.cov["transitions"] += res.generated
+        if '"ACCEPTED"' not in res.out:
+            m = [v for v in res.printed() if isinstance(v, list) and v and v[0] == "REJECTED"]
+            if not m:
+                raise MachineryFailure("stack trace validator neither accepted nor rejected:\n" + res.tail())
+            chk.disagree(f"{pid}:suite-stack:line{m[0][1]}:{m[0][2][:160]}", {"rejected_event": json.loads(m[0][2]), "line": m[0][1]})
+    if not traces or not nev:
+        raise MachineryFailure("no push/pop events were recorded from the repository's test-suite")
+    chk.cov["traces_validated_against_impl"] += len(traces)
+    chk.part("repo_test_suite_stack", events=nev, files=len(traces))
     chk.part("repo_test_suite", recorded_checks=total, unsupported_skipped=unsupported, suite_result=open(os.path.join(cache, "done")).read(),
              recording_cached=cached)
     return total
